@@ -5,7 +5,7 @@ import json, os, re, shutil, subprocess, sys, tempfile, time, hashlib
 VERIF = os.path.dirname(os.path.dirname(os.path.abspath(__file__)))
 SPEC = os.path.join(VERIF, "spec")
 HARNESS = os.path.join(VERIF, "harness")
-EVIDENCE = os.path.join(VERIF, "evidence")
+EVIDENCE = os.environ.get("VERIF_EVIDENCE_DIR") or os.path.join(VERIF, "evidence")   # mutant trials (tools/seed_verify.py) write theirs elsewhere
 REPLAYS = os.path.join(VERIF, "replays")
 REPO = os.environ.get("VERIF_REPO", "/repo")
 
